@@ -255,7 +255,23 @@ def compare(scn, lscn, cr, lr):
         # outside the model (bit-map operators): only the implementation's own outcome counts; the oracle judges it
         from vlib.engine import compare as cmp0
         return cmp0(scn, cr, (list(cr[0]), None), None)
-    return c01.compare(scn, lscn, cr, lr)
+    # a decode flagged invalid leaves the field that was cut short undefined (not modelled): what is encoded from such
+    # a dataset, and everything decoded from that encoding, is outside the tie (and outside the property: m must
+    # decode valid)
+    c_out, l_out = list(cr[0]), list(lr[0])
+    bad = False
+    for i, l in enumerate(scn.lines):
+        if i >= len(c_out) or i >= len(l_out):
+            break
+        if l.startswith("tm.new"):
+            bad = False
+        elif bad and l.split()[0] in ("ds.msg", "ds.encode", "ds.decodemsg", "ds.decodelast", "ds.decode", "ds.hdr", "dd.list", "dd.vals", "dd.tocur"):
+            l_out[i] = c_out[i]
+        if l.startswith("ds.decode"):
+            f = c_out[i].split()
+            if f[:1] == ["read"]: f = f[2:]
+            bad = bad or (len(f) >= 2 and f[0] == "ok" and f[1] == "1")
+    return c01.compare(scn, lscn, (c_out, cr[1]), (l_out, lr[1]))
 
 def oracle(scn, outs):
     # the chain  [E0 =] m -decode-> D0 -encode-> m1 -decode-> D1 -encode-> m2 [-decode-> D2 -encode-> m3]:
